@@ -109,3 +109,31 @@ impl ConfigOptions {
         }
     }
 }
+
+// ---- apply_config: the repository as seen by the command ----
+// `accepted(c)`: c is the result of a successful ConfigOptions::apply -- established ONLY by vapply's Ok.
+pub uninterp spec fn accepted(c: ConfigFile) -> bool;
+pub struct VKey { pub _opaque: u64 }
+pub struct VDbe { pub k: VKey }
+impl VDbe { pub fn key(&self) -> (r: &VKey) { &self.k } }
+pub struct VRepo { pub cfg: ConfigFile, pub be: VDbe }
+impl VRepo {
+    pub fn config(&self) -> (r: &ConfigFile) ensures *r == self.cfg, { &self.cfg }
+    pub fn dbe(&self) -> (r: &VDbe) { &self.be }
+    #[verifier::external_body]
+    pub fn set_config(&mut self, c: ConfigFile) ensures final(self).cfg == c, { unimplemented!() }
+}
+#[verifier::external_body]
+pub fn vclone_config(c: &ConfigFile) -> (r: ConfigFile) ensures r == *c, { unimplemented!() }
+#[verifier::external_body]
+pub fn vconfig_eq(a: &ConfigFile, b: &ConfigFile) -> (r: bool) ensures r == (*a == *b), { unimplemented!() }
+// ConfigOptions::apply seen through its contract (proved above as unit `apply`)
+#[verifier::external_body]
+pub fn vapply(opts: &ConfigOptions, config: &mut ConfigFile) -> (r: RusticResult<()>)
+    ensures r is Ok ==> accepted(*final(config)),
+{ unimplemented!() }
+// save_config: writes the config file(s) to storage.  PRECONDITION: only an accepted configuration is ever stored.
+#[verifier::external_body]
+pub fn save_config(repo: &VRepo, new_config: ConfigFile, key: &VKey) -> (r: RusticResult<()>)
+    requires accepted(new_config),
+{ unimplemented!() }
